@@ -493,13 +493,18 @@ extern int total_queries;
     int _col_ofs = (_ofs); \
     const void *_blob; \
     _value->kind = (cif_kind_tp) sqlite3_column_int(_stmt, _col_ofs); \
+    /* on every exit through errlabel the value must be one that cif_value_clean() can handle */ \
     switch (_value->kind) { \
         case CIF_CHAR_KIND: \
+            _value->as_char.text = NULL; \
             _value->as_char.quoted = (sqlite3_column_int(_stmt, _col_ofs + 1) ? CIF_QUOTED : CIF_NOT_QUOTED); \
             GET_COLUMN_STRING(_stmt, _col_ofs + 3, _value->as_char.text, HANDLER_LABEL(errlabel)); \
             if (_value->as_char.text != NULL) break; \
             FAIL(errlabel, CIF_INTERNAL_ERROR); \
         case CIF_NUMB_KIND: \
+            _value->as_numb.text = NULL; \
+            _value->as_numb.digits = NULL; \
+            _value->as_numb.su_digits = NULL; \
             _value->as_numb.quoted = (sqlite3_column_int(_stmt, _col_ofs + 1) ? CIF_QUOTED : CIF_NOT_QUOTED); \
             GET_COLUMN_STRING(_stmt, _col_ofs + 3, _value->as_numb.text, HANDLER_LABEL(errlabel)); \
             GET_COLUMN_BYTESTRING(_stmt, _col_ofs + 4, _value->as_numb.digits, HANDLER_LABEL(errlabel)); \
@@ -513,6 +518,7 @@ extern int total_queries;
             FAIL(errlabel, CIF_INTERNAL_ERROR); \
         case CIF_LIST_KIND: \
         case CIF_TABLE_KIND: \
+            _value->kind = CIF_UNK_KIND;  /* cif_value_deserialize() sets the kind once it has the content */ \
             _blob = (const void *) sqlite3_column_blob(_stmt, _col_ofs + 2); \
             if (_blob != NULL) { \
                 int _gvp_result = cif_value_deserialize( \
@@ -529,6 +535,7 @@ extern int total_queries;
         case CIF_NA_KIND: \
             break; \
         default: \
+            _value->kind = CIF_UNK_KIND; \
             FAIL(errlabel, CIF_INTERNAL_ERROR); \
     } \
 } while (0)
